@@ -230,7 +230,9 @@ def lint(chk, units):
                 bad = None
                 if any(qn.startswith(p) for p in LINT_DENY) and "vt::Arch" in qn:
                     bad = "uses %s" % qn[:100]
-                elif d.get("file", "").endswith(LINT_FILES[:6]) and not d.get("inroot"):
+                elif d.get("file", "").endswith(LINT_FILES[:6]) and not d.get("inroot") and "vt::Arch" in (
+                        qn + " ".join(p_["type"] for p_ in d.get("params", ()))):
+                    # a <cmath>/<limits>/<complex> entity applied to the scalar (numeric_limits<size_t> etc. are fine)
                     bad = "calls %s from %s" % (qn[:80], os.path.basename(d["file"]))
                 elif d.get("name") in ("operator<<", "operator>>") and x["k"].endswith("CallExpr"):
                     args = [u.type(a) for a in F.kids(x)[1:]]
